@@ -73,7 +73,7 @@ where
             .take(self.vals.len())
             .skip(3)
         {
-            *v = (val
+            *v = (*self.vals.get(i).unwrap()
                 + two * *self.vals.get(i - 1).unwrap()
                 + two * *self.vals.get(i - 2).unwrap()
                 + *self.vals.get(i - 3).unwrap())
